@@ -59,7 +59,8 @@ Schema(c) ==
     ("Shades" :> DAlias(NB(c), TList(TRef("Tint"), Unset, Unset), "")) @@
     ("MaybeShade" :> DAlias(NB(c), TNull(TRef("Tint")), "")) @@
     \* a namespace whose only type inherits a defaulted field from another namespace and has nothing optional of its own
-    ("Base0"  :> DStruct(NB(c), "", <<Fld("id", Str), FldD("weight", I32, VInt(13))>>, <<>>, FALSE)) @@
+    \* (the inherited field tint is typed by a class of a namespace nf does not import)
+    ("Base0"  :> DStruct(NB(c), "", <<Fld("id", Str), FldD("weight", I32, VInt(13)), Fld("tint", TNull(TRef("Tint")))>>, <<>>, FALSE)) @@
     ("Circle" :> DStruct("nf", "Base0", <<Fld("radius", TFloat("Float64", Unset, Unset))>>, <<>>, FALSE)) @@
     (IF c.tsd THEN ("Stamped" :> DStruct("nf", "", <<FldD("at", TTs("f2"), VTs(0)), FldD("raw", TBytes(Unset, Unset), VBytes(2, 0)),
                                                     Fld("n", I32)>>, <<>>, FALSE))
